@@ -56,6 +56,29 @@ Theorem C20_optin_requires : forall e st key addr caller operator self frozen st
 Proof. exact optin_requires. Qed.
 Print Assumptions C20_optin_requires.
 
+(* The self USD value the opt-in compares with the minimum is the truncating closed form
+   floor(amount * price * 10^18 / 10^(asset decimals + price decimals))   (CalculateUSDValue: QuoInt), which never
+   over-states the exact value: if it reaches min (in 10^-18 USD) then amount * price / 10^d >= min exactly.  The monitor
+   mon_optin evaluates the exact rational inequality on the observed pools / shares / prices / decimals, and check_case
+   ties the value the code reports to [self_formula]. *)
+Theorem C20_self_value_never_overstated : forall amount price d m, 0 <= amount -> 0 <= price -> 0 <= d ->
+  m * P <= usd_trunc amount price d -> m * 10 ^ d <= amount * price.
+Proof. exact usd_trunc_sound. Qed.
+Print Assumptions C20_self_value_never_overstated.
+
+Theorem C20_self_value_is_floor : forall amount price d, 0 <= amount -> 0 <= price -> 0 <= d ->
+  usd_trunc amount price d * 10 ^ d <= amount * price * P < (usd_trunc amount price d + 1) * 10 ^ d.
+Proof. exact usd_trunc_floor. Qed.
+Print Assumptions C20_self_value_is_floor.
+
+(* the seeded boundary: 100000000001 base units at price 99999999999e-13 is 999.9999999999999999999 USD: the closed
+   form gives 999.999999999999999999, below a minimum of 1000, and the exact test agrees *)
+Example C20_self_value_boundary :
+  usd_trunc 100000000001 99999999999 19 = 999999999999999999999 /\
+  exact_self_ge [mkPool 100000000001 (100000000001 * P) (100000000001 * P) 99999999999 6 13] 1000 = false /\
+  exact_self_ge [mkPool 100000000001 (100000000001 * P) (100000000001 * P) 100000000000 6 13] 1000 = true.
+Proof. vm_compute. repeat split; reflexivity. Qed.
+
 (* The identifiers handed out to one task contract along any history are consecutive: n+1, n+2, ... where n is the
    contract's counter at the start (0 for a contract without tasks, so 1, 2, 3, ...); hence unique and strictly
    increasing; the counter ends at the last identifier. *)
